@@ -59,6 +59,19 @@ FullSyncMove<SlotType, BUFFER_SIZE> {
         // if !BUFFER_SIZE.is_power_of_two() {
         //     panic!("FullSyncMeta: BUFFER_SIZE must be a power of 2, but {BUFFER_SIZE} was provided.");
         // }
+        #[cfg(feature = "verif")]
+        #[allow(unreachable_code)]
+        {
+            // sequence counters start wherever the simulator says (0 if none is installed)
+            let origin = crate::verif::sequence_origin();
+            return Self {
+                head:              UnsafeCell::new(origin),
+                tail:              UnsafeCell::new(origin),
+                concurrency_guard: AtomicBool::new(false),
+                buffer:            UnsafeCell::new(Box::pin([0; BUFFER_SIZE].map(|_| ManuallyDrop::new(slot_initializer())))),
+            }
+        }
+        #[allow(unreachable_code)]
         Self {
             head:              UnsafeCell::new(0),
             tail:              UnsafeCell::new(0),
@@ -107,6 +120,7 @@ FullSyncMove<SlotType, BUFFER_SIZE> {
 
     #[inline(always)]
     fn available_elements_count(&self) -> usize {
+        #[cfg(feature = "verif")] crate::verif::yield_point();
         let tail = unsafe { &* self.tail.get() };
         let head = unsafe { &* self.head.get() };
         tail.overflowing_sub(*head).0 as usize
@@ -217,6 +231,7 @@ FullSyncMove<SlotType, BUFFER_SIZE> {
     /// -- assumes the lock is in the acquired state
     #[inline(always)]
     pub fn publish_leaked_internal(&self) {
+        #[cfg(feature = "verif")] crate::verif::yield_point();
         let tail = unsafe { &mut * self.tail.get() };
         *tail = tail.overflowing_add(1).0;
         ogre_sync::unlock(&self.concurrency_guard);
@@ -261,6 +276,7 @@ FullSyncMove<SlotType, BUFFER_SIZE> {
     /// -- assumes the lock is in the acquire state, leaving it untouched
     #[inline(always)]
     fn release_leaked_internal(&self) {
+        #[cfg(feature = "verif")] crate::verif::yield_point();
         let head = unsafe { &mut * self.head.get() };
         *head = head.overflowing_add(1).0;
     }
